@@ -157,3 +157,90 @@ def no_dtype_narrowing(chk, repo, pid, rule, quals, why):
             ok = dt is None or is_const(v.ctx, dt, None)
             chk.ob(f"{q}::result-dtype-not-inherited", ok, rule,
                    f"the result is constructed with dtype={v.show(dt)}: {why}", v.f, r)
+
+
+# ============================================================================ the verified schema (DESIGN section 2)
+SCHEMA = {
+    REGION: {"pmin": "_pmin", "pmax": "_pmax", "dims": "_dims", "units": "_units", "tolerance_factor": "_tolerance_factor"},
+    MESH: {"region": "_region", "n": "_n", "bc": "_bc", "subregions": "_subregions"},
+    FIELD: {"mesh": "_mesh", "nvdim": "_nvdim", "array": "_array", "valid": "_valid", "unit": "_unit", "vdims": "_vdims",
+            "vdim_mapping": "_vdim_mapping"},
+}
+
+
+# state that a property's statement does not involve (its check does not vouch for those getters)
+SCHEMA_SKIP = {
+    "C01": {(FIELD, "valid"), (FIELD, "unit"), (FIELD, "vdims"), (FIELD, "vdim_mapping"), (MESH, "bc")},
+    "C03": {(MESH, "bc"), (MESH, "subregions")},
+    "C04": {(MESH, "subregions")},
+    "C05": {(MESH, "subregions")},
+    "C06": {(FIELD, "valid"), (FIELD, "vdim_mapping"), (MESH, "bc"), (MESH, "subregions")},
+    "C09": {(FIELD, "valid"), (MESH, "bc")},
+    "C11": {(FIELD, "valid"), (MESH, "bc"), (MESH, "subregions")},
+    "C15": {(REGION, "*"), (MESH, "bc"), (MESH, "subregions"), (FIELD, "vdim_mapping"), ("helpers", "*")},
+    "C17": {(FIELD, "valid"), (MESH, "bc"), (MESH, "subregions")},
+    "C18": {(MESH, "bc"), (MESH, "subregions"), (FIELD, "unit")},
+    "C19": {(FIELD, "unit"), (MESH, "subregions"), (MESH, "bc")},
+    "C20": {(MESH, "bc"), (MESH, "subregions"), (FIELD, "unit")},
+}
+
+
+def schema(chk, repo, pid):
+    """Every rule reads object state through the property getters and reasons about the slots behind them
+    (`self.valid` IS `self._valid`, `region.pmin` IS `_pmin`, a dimension name IS its position in `dims`).  That reading
+    of the code is confirmed here on every run: each getter returns exactly its slot, the derived getters are the documented
+    expressions, and the two small helpers every axis / point computation goes through are what the rules take them to be."""
+    chk.rule(f"{pid}.schema", "state is read through getters that return exactly their slot (pmin, pmax, dims, units, n, region, "
+                              "subregions, array, valid, ...); ndim = number of corner coordinates, centre = (pmin + pmax)/2; "
+                              "_dim2index(d) is the position of d in dims; array2tuple keeps the order of the coordinates")
+    skip = SCHEMA_SKIP.get(pid, set())
+    for cls, table in SCHEMA.items():
+        for name, slot in table.items():
+            if (cls, name) in skip or (cls, "*") in skip:
+                continue
+            g = repo.resolve_getter(cls, name)
+            chk.require(g is not None, f"{cls}.{name}: getter vanished")
+            v = FV(repo, g.qual)
+            rets = [r for r in v.returns() if r.value is not None]
+            ok = len(rets) == 1 and len(v.stmts()) == 1 and isinstance(rets[0].value, ast.Attribute) and \
+                isinstance(rets[0].value.value, ast.Name) and rets[0].value.value.id == "self" and rets[0].value.attr == slot
+            chk.ob(f"schema::{cls}.{name}", ok, f"{pid}.schema",
+                   f"the getter returns `{v.src(rets[0].value) if rets else '?'}`; every rule takes {name} to be the slot {slot} itself",
+                   v.f, rets[0] if rets else None)
+    # derived getters
+    for name, texts in (("ndim", ("len(self.pmin)", "len(self.pmax)", "len(self.dims)", "len(self._pmin)")),
+                        ("center", ("0.5 * np.add(self.pmin, self.pmax)", "(self.pmin + self.pmax) / 2")),
+                        ("centre", ("self.center",)),
+                        ("edges", ("np.subtract(self.pmax, self.pmin)", "self.pmax - self.pmin"))):
+        if (REGION, "*") in skip:
+            continue
+        g = repo.resolve_getter(REGION, name)
+        chk.require(g is not None, f"Region.{name}: getter vanished")
+        v = FV(repo, g.qual)
+        v.ev.expand = False
+        rets = [r for r in v.returns() if r.value is not None]
+        ok = len(rets) == 1 and any(v.eq(v.ev.term(rets[0].value, at=rets[0]), v.spec(t_)) for t_ in texts)
+        chk.ob(f"schema::{REGION}.{name}", ok, f"{pid}.schema",
+               f"the getter returns `{v.src(rets[0].value) if rets else '?'}`; expected {texts[0]}", v.f, rets[0] if rets else None)
+    if ("helpers", "*") in skip:
+        return
+    # dimension name -> axis number
+    v = FV(repo, f"{REGION}._dim2index")
+    rets = [r for r in v.returns() if r.value is not None]
+    ok = len(rets) == 1 and any(v.eq(v.ev.term(rets[0].value, at=rets[0]), v.spec(t_)) for t_ in
+                                ("self.dims.index(dim)", "self._dims.index(dim)", "list(self.dims).index(dim)"))
+    chk.ob(f"schema::{REGION}._dim2index", ok, f"{pid}.schema",
+           f"returns `{v.src(rets[0].value) if rets else '?'}`; the axis number of a dimension is its position in dims", v.f,
+           rets[0] if rets else None)
+    # points as tuples keep their coordinate order
+    v = FV(repo, "util.util.array2tuple")
+    rets = [r for r in v.returns() if r.value is not None]
+    ok = False
+    if len(rets) == 1:
+        mem = phi_members(v.ctx, v.ev.term(rets[0].value, at=rets[0]))
+        want = [v.spec("array.item()"), v.spec("tuple(array.tolist())")]
+        ok = all(any(v.eq(m, w) for w in want + [v.spec("tuple(array)")]) for m in mem) and \
+            any(v.eq(m, want[1]) or v.eq(m, v.spec("tuple(array)")) for m in mem)
+    chk.ob("schema::util.util.array2tuple", ok, f"{pid}.schema",
+           f"returns `{v.src(rets[0].value) if rets else '?'}`; expected the coordinates in order (a plain number for one coordinate)",
+           v.f, rets[0] if rets else None)
